@@ -13,7 +13,7 @@ from sa.report import Ctx
 from .common import generic_sweeps
 from sa.stutter import stutter_paths
 
-from .sat_common import SatRoles, check_add_sites, check_assumption_assertion, check_backtrack, check_heap_flags, check_input_copy
+from .sat_common import SatRoles, check_add_sites, check_assumption_assertion, check_backtrack, check_heap_flags, check_variable_universe, check_input_copy
 
 EXPLANATION = (
     "Decides structural necessary conditions of 'INFEASIBLE only without a model / always returns within budgets' on "
@@ -42,6 +42,7 @@ def run(ctx: Ctx):
     check_assumption_assertion(ctx, roles, "C02-O7")
     ctx.assume("conflict-only cycles terminate because consecutive conflicts strictly lower the decision level (not verified)")
     check_heap_flags(ctx, "C02-O8")
+    check_variable_universe(ctx, "C02-O10")
     check_input_copy(ctx, "C02-O9")
     generic_sweeps(ctx, skip_stutter_modules=("solvor/sat.py",))
 
@@ -401,6 +402,11 @@ def _t_tautology_test_on_kept_clause(tree):
     M.replace_stmt(g, lambda s: M.src_is(s, "clauses = [list(c) for c in clauses]"), M.stmts(NORMALISE % ("lits", "lits")))
 
 
+def _v_universe_from_clauses_only(tree):
+    g = M.find_func(tree, "solve_sat")
+    M.replace_stmt(g, lambda s: isinstance(s, ast.For) and M.src_is(s.iter, "assumptions") and M.src_has(s, "n_vars = max(n_vars"), [])
+
+
 def _v_flag_kept_on_skip(tree):
     g = M.find_func(tree, "solve_sat.pick_var")
     M.replace_stmt(g, lambda s: M.src_is(s, "in_heap[var] = False"), [])
@@ -453,6 +459,7 @@ VARIANTS = [
     M.Variant("twin: unassign_to in single-exit form", SAT, _t_unassign_single_exit, None),
     M.Variant("input normalisation drops clauses with a repeated literal as tautologies (seed C02-C)", SAT, _v_tautology_test_on_raw_clause, "C02-O9"),
     M.Variant("twin: input normalisation that tests the de-duplicated literals", SAT, _t_tautology_test_on_kept_clause, None),
+    M.Variant("variable count taken from the clauses only (original defect)", SAT, _v_universe_from_clauses_only, "C02-O10"),
     M.Variant("twin: reformat only", SAT, _t_reformat, None),
     M.Variant("twin: rename locals of the backtrack routine", SAT, _t_rename, None),
     M.Variant("twin: comparisons written the other way round", SAT, _t_budget_flipped, None),
